@@ -2,6 +2,7 @@
 transformation or a first-order statement about the library call it stands for."""
 from fractions import Fraction
 import z3
+import hashlib
 
 from .values import *      # noqa
 from .values import _num, MODE
@@ -347,7 +348,12 @@ def getitem(it, a, key):
                     it.ctx.definedness(cmp("<", kk, dim), "index %d in bounds" % kk)
             else:
                 kk = zi(k)
-                it.ctx.definedness(b_and(cmp(">=", kk, 0), cmp("<", kk, dim)), "index in bounds (non-negative indices modelled)")
+                if it.ctx.decide(kk < 0) is True:
+                    # an index the path condition makes negative counts from the end (a[-k] with k >= 1)
+                    kk = zi(r_add(dim, kk))
+                    it.ctx.definedness(b_and(cmp(">=", kk, 0), cmp("<", kk, dim)), "negative index in bounds")
+                else:
+                    it.ctx.definedness(b_and(cmp(">=", kk, 0), cmp("<", kk, dim)), "index in bounds (non-negative indices modelled)")
             plan.append(("int", kk))
         src += 1
 
@@ -916,6 +922,17 @@ def reshape(it, a, newshape):
             q = it.floordiv(L, s) if not (is_conc(s) and _num(s) == 1) else L
             out.append(it.mod(q, d) if len(out) > 0 else q)
         return out
+    # leading axes that are kept as they are (a stack reshaped per item: (B, H, W) -> (B, H*W)) are passed through, so that an item of the
+    # reshaped stack has the same index term as the item reshaped alone; row-major order makes this the same map for indices in bounds
+    p = 0
+    while p < min(len(old), len(newshape)) - 0 and p < len(old) and p < len(newshape) and dim_eq(old[p], newshape[p]) is True:
+        p += 1
+    if p == len(old) or p == len(newshape):
+        p = max(0, min(len(old), len(newshape)) - 1) if p > 0 else 0
+    if p > 0:
+        so_t, sn_t = strides(old[p:]), strides(newshape[p:])
+        return a.view(newshape, lambda idx: list(idx[:p]) + unlin(lin(idx[p:], sn_t), old[p:], so_t),
+                      lambda sidx: (True, list(sidx[:p]) + unlin(lin(sidx[p:], so_t), newshape[p:], sn_t)))
     return a.view(newshape, lambda idx: unlin(lin(idx, sn), old, so), lambda sidx: (True, unlin(lin(sidx, so), newshape, sn)))
 
 
@@ -2150,6 +2167,44 @@ def _np_var(it, a, *args, **kw):
     raise RuntimeError("replaced below")
 
 
+def _np_sort(it, a, *args, **kw):
+    """numpy.sort along the last axis as an uninterpreted ORDER-STATISTIC functional of the row's contents:
+    sort(a)[lead, k] = OrdStat_<hash of the row's element term>(free symbols of the row, row length, k).
+    Two rows with the same element term (a frame inside a stack and the same frame alone) get the same term, which is all the
+    contracts use; no ordering axioms are stated (value clauses about the level itself stay bounded)."""
+    a = as_arr(it, a)
+    axis = kw.get("axis", args[0] if args else -1)
+    if not (is_conc(axis) and int(axis) in (-1, a.ndim - 1)) or a.ndim < 1:
+        raise Unsupported("numpy.sort along an axis other than the last")
+    if any(k not in ("axis",) for k in kw):
+        raise Unsupported("numpy.sort keyword %s" % sorted(kw))
+    if a.dtype not in ("float", "int"):
+        raise Unsupported("numpy.sort of %s data" % a.dtype)
+    snap = a.snapshot()
+    M = a.shape[-1]
+    nlead = a.ndim - 1
+    it.ctx.trusted_calls.add("numpy.sort (a deterministic function of each row's contents; order statistics uninterpreted)")
+
+    def elem(idx):
+        lead, k = list(idx[:nlead]), idx[nlead]
+        j = z3.Int("ordstat!j")
+        body = z3.simplify(zr(snap(lead + [j])))
+        fv = {}
+        free_consts(body, fv)
+        free_consts(zi(M) if not is_conc(M) else z3.IntVal(int(M)), fv)
+        fv.pop(str(j), None)
+        names = sorted(fv)
+        hsh = hashlib.sha256((body.sexpr() + "|" + str(M)).encode()).hexdigest()[:12]
+        import os
+        if os.environ.get("AOVC_DEBUG_SORT"):
+            print("ORDSTAT", hsh, body.sexpr(), "|", M)
+        args_ = [fv[n] for n in names] + [zi(k) if not is_conc(k) else z3.IntVal(int(k))]
+        F = z3.Function("OrdStat_%s" % hsh, *([x.sort() for x in args_] + [z3.RealSort()]))
+        return F(*args_)
+    return Arr(list(a.shape), elem, a.dtype)
+
+
+EXT["numpy.sort"] = _np_sort
 EXT["numpy.var"] = lambda it, a, *args, **kw: arr_method(it, as_arr(it, a), "var", list(args), dict(kw))
 EXT["numpy.std"] = lambda it, a, *args, **kw: arr_method(it, as_arr(it, a), "std", list(args), dict(kw))
 
